@@ -146,6 +146,13 @@ def report(ctx, where, r, replay, counters):
         ctx.violation(sig, f'{clause} [{where}] {text} cfg={compact(cfg)} '
                            f'raised={r.get("raised")} errors={r.get("errors")}',
                       replay=replay)
+    if defect != 'none' and r['divergences']:
+        # the model has the repaired rule: where a reported defect of the
+        # pinned tree is in play the real code cannot follow it step by step;
+        # the monitors above still judge these cases
+        counters[('unmodelled', defect)] = \
+            counters.get(('unmodelled', defect), 0) + 1
+        return
     for d in r['divergences']:
         ctx.divergence(f'Scp [{where}] {d} cfg={compact(cfg)} '
                        f'raised={r.get("raised")} errors={r.get("errors")} '
@@ -423,6 +430,11 @@ def _main(ctx, drv):
         f'{m}/{o}={n}' for (m, o), n in sorted(outcomes.items())))
     ctx.notes.append('scripts: ' + ', '.join(
         f'{s}/{e}={n}' for (s, e), n in sorted(ends.items())))
+    for (tag, defect), n in sorted((k, v) for k, v in counters.items()
+                                   if k[0] == 'unmodelled'):
+        ctx.notes.append(f'{n} cases touching the reported defect {defect} '
+                         f'end differently from the (repaired) model without '
+                         f'breaking a property; not counted as divergences')
     if skipped:
         ctx.notes.append(f'{skipped} cases skipped (refusal or order that '
                          f'cannot be produced in that mode)')
